@@ -44,6 +44,10 @@ pub struct SimPlan {
     /// tmpfs tree instead of the simulated disk
     #[serde(default)]
     pub realfs: bool,
+    /// environment variables set in the process while the plan runs (none in
+    /// the canonical environment)
+    #[serde(default)]
+    pub env: Vec<(String, String)>,
 }
 
 pub fn keys_from_hex(h: &str) -> [u8; 16] {
@@ -76,6 +80,7 @@ impl SimPlan {
             lib_pass,
             all_formats,
             realfs: false,
+            env: vec![],
         }
     }
 }
@@ -127,7 +132,30 @@ impl PlanResult {
     }
 }
 
+/// Variables the environment dimension may set. The colour conventions
+/// (NO_COLOR, CLICOLOR, CLICOLOR_FORCE, TERM) are deliberately absent:
+/// honouring them is a widespread convention that changes colour codes only,
+/// and the property does not name the environment among the things the
+/// result must be independent of.
+pub const ENV_NAMES: &[&str] = &["COLUMNS", "LINES", "LANG", "LC_ALL", "TZ", "HOME", "USER", "TMPDIR", "CUSTOMASM_OPTS", "SOURCE_DATE_EPOCH", "PWD", "HOSTNAME"];
+
 pub fn run_plan(plan: &SimPlan) -> PlanResult {
+    // no simulated thread is running here: the process environment is set
+    // for the whole plan and cleared again afterwards
+    for n in ENV_NAMES {
+        std::env::remove_var(n);
+    }
+    for (k, v) in &plan.env {
+        std::env::set_var(k, v);
+    }
+    let res = run_plan_inner(plan);
+    for (k, _) in &plan.env {
+        std::env::remove_var(k);
+    }
+    res
+}
+
+fn run_plan_inner(plan: &SimPlan) -> PlanResult {
     if plan.realfs {
         return crate::realfs::run_plan_realfs(plan);
     }
